@@ -31,7 +31,7 @@ def Schema.createNode (S : Schema) (ty : TypeId) (attrs : Attrs) (marks : Marks)
 
 /-- `NodeType.create_and_fill()` (no arguments): default attributes, content filled up to a valid
     end; `none` = returns `None` (or the recursion does not end: `fuel`) -/
-def Schema.createAndFill (S : Schema) : (fuel : Nat) → TypeId → Option Node
+def Schema.createAndFill0 (S : Schema) : (fuel : Nat) → TypeId → Option Node
   | 0, _ => none
   | fuel + 1, t =>
     let nt := S.nodeType t
@@ -41,7 +41,7 @@ def Schema.createAndFill (S : Schema) : (fuel : Nat) → TypeId → Option Node
       match fillBefore (S.dfa t) S.generatable 0 [] true with
       | none => none
       | some tys =>
-        match tys.mapM (S.createAndFill fuel) with
+        match tys.mapM (S.createAndFill0 fuel) with
         | none => none
         | some kids => some (if nt.isLeaf then Node.leaf t a [] else Node.elem t a [] kids)
 
@@ -194,7 +194,7 @@ def PSt.clearIncompatible (S : Schema) (st : PSt) (pos : Nat) (pty : TypeId) (q0
           match fillBefore (S.dfa pty) S.generatable q [] true with
           | none => .error .internal                      -- `assert fill is not None`
           | some tys =>
-            match tys.mapM (S.createAndFill (S.nodes.size + 1)) with
+            match tys.mapM (S.createAndFill0 (S.nodes.size + 1)) with
             | none => .error .internal
             | some nodes => st1.replace S cur cur ⟨nodes, 0, 0⟩
       match filled with
@@ -204,7 +204,7 @@ def PSt.clearIncompatible (S : Schema) (st : PSt) (pos : Nat) (pty : TypeId) (q0
 /-! ### set_block_type -/
 
 /-- `node.is_textblock` -/
-def Schema.isTextblock (S : Schema) : Node → Bool
+def Schema.isTextblockN (S : Schema) : Node → Bool
   | .text .. => false
   | .leaf t _ _ => !(S.nodeType t).isInline && (S.nodeType t).inlineContent
   | .elem t _ _ _ => !(S.nodeType t).isInline && (S.nodeType t).inlineContent
@@ -221,7 +221,7 @@ def Schema.hasMarkup (S : Schema) (n : Node) (ty : TypeId) (attrs : Attrs) : Boo
   n.marks.isEmpty
 
 /-- `can_change_type(doc, pos, type)` -/
-def canChangeType (S : Schema) (doc : Node) (pos : Nat) (ty : TypeId) : Res Bool :=
+def canChangeTypeR (S : Schema) (doc : Node) (pos : Nat) (ty : TypeId) : Res Bool :=
   match doc.resolve pos with
   | none => .error .valueError
   | some r =>
@@ -243,9 +243,9 @@ def setBlockTypeVisit (S : Schema) (ty : TypeId) (attrs : Attrs) (mapFrom : Nat)
   | .error e => .error e
   | .ok (st, skip) =>
     if v.pos < skip then .ok (st, skip)
-    else if !S.isTextblock v.node || S.hasMarkup v.node ty attrs then .ok (st, skip)
+    else if !S.isTextblockN v.node || S.hasMarkup v.node ty attrs then .ok (st, skip)
     else
-      match canChangeType S st.tr.doc (st.mapFrom mapFrom v.pos 1) ty with
+      match canChangeTypeR S st.tr.doc (st.mapFrom mapFrom v.pos 1) ty with
       | .error e => .error e
       | .ok false => .ok (st, skip)
       | .ok true =>
